@@ -779,6 +779,20 @@ example : ∃ c outs, crun CSt.init [.set, .cfgAdd 0 la 0, .onOwn (.add 0 lc 1),
   exact ⟨_, outs, c, by simpa [la, lc] using h2⟩
 
 
+/-- `crun_caller` applied (hypothesis audit, round 10): the configuration refers to the caller's dispatcher, a listener
+is registered through the configuration and the event dispatched on `config.dispatcher` -/
+example := crun_caller [.cfgAdd 0 la 0, .onCfg (.dispatch 0 false)] ⟨Dispatcher.init, Dispatcher.init, .caller⟩ rfl
+
+/-- `config_lazy_first` applied to the fresh configuration -/
+example := config_lazy_first 0 la 0 CSt.init rfl
+
+/-- the case conditions are not idle: on a configuration that refers to NO dispatcher `config.dispatcher` is `None`
+(the operation raises, where `crun_caller` promises the run on the caller's object), and a configuration that already
+made a dispatcher keeps it (`cfg` stays `.made`, where `config_lazy_first` speaks of the first creation) -/
+example : (match crun CSt.init [.onCfg (.dispatch 0 false)] with | .error _ => true | .ok _ => false) = true ∧
+    (match crun CSt.init [.cfgAdd 0 la 0, .cfgAdd 0 lc 1] with
+      | .ok (c, _) => decide (c.cfg = .made) | .error _ => false) = true := by decide
+
 end Config
 
 end Clikit.Props.C12
